@@ -73,6 +73,9 @@ def shapes(tier):
     # single-point SOMA is ignored, every other first segment counts (seeded change C16_c)
     S.append([(2, 3, leaf(2, 2), leaf(2, 4))])
     S.append([(1, 4, (2, 3, leaf(1, 3), leaf(2, 2)), leaf(2, 4)), leaf(2, 2)])
+    # the custom type 5 and user-defined types >= 6 next to the standard ones
+    S.append([(2, 3, leaf(2, 6), leaf(2, 7))])
+    S.append([leaf(2, 5), (1, 2, leaf(2, 6), leaf(1, 5))])
     if tier != "quick":
         S.append([(1, 3, (1, 3, leaf(1, 3), leaf(1, 3)), (1, 3, leaf(1, 3), leaf(1, 3)))])
         S.append([leaf(5, 2), leaf(4, 3), leaf(6, 4)])
@@ -230,8 +233,25 @@ def check_file(rows, ncomps=(1, 2, 3), min_radius=None, tmpdir="."):
                 covered += gotb
                 if wantb != gotb:
                     problems.append(f"ncomp={n}: group {nm} holds branches {gotb}, type {t} sections are {wantb}")
-            if sorted(covered) != list(range(nb)):
-                problems.append(f"ncomp={n}: type groups do not partition the branches")
+            # every SWC type (also 0, 5 and the user-defined types >= 6) has its own group, whatever it is called: each branch is
+            # in exactly one group, and two branches share a group exactly when their sections have the same type (seeded change C16_e)
+            member = {b: [] for b in range(nb)}
+            for gname, rows in cell.groups.items():
+                for b in sorted({int(x) for x in cell.nodes.loc[rows, "global_branch_index"]}):
+                    member[b].append(gname)
+            multi = {b: g for b, g in member.items() if len(g) != 1}
+            if multi:
+                problems.append(f"ncomp={n}: type groups do not partition the branches (branch -> groups: {multi})")
+            else:
+                for b1 in range(nb):
+                    for b2 in range(b1 + 1, nb):
+                        same_t = secs[m[b1]]["type"] == secs[m[b2]]["type"]
+                        if (member[b1] == member[b2]) != same_t:
+                            problems.append(f"ncomp={n}: branches {b1} (type {secs[m[b1]]['type']}, group {member[b1]}) and {b2} (type {secs[m[b2]]['type']}, group {member[b2]}): same group iff same type is violated")
+                            break
+                    else:
+                        continue
+                    break
             totals.append(float(cell.nodes["length"].sum()))
             conns.append(tuple(par))
         if totals and (max(totals) - min(totals) > 1e-6 * max(1.0, max(totals)) or len(set(conns)) > 1):
@@ -456,7 +476,7 @@ def main(tier):
         ref = oc[0] == "ok" and not oc[1]["error"] and any(r["status"] != "proved" for r in oc[1]["results"])
         ck.canary(f"{can[0]}: {can[2][:50]!r} -> {can[3][:50]!r}", ref, oc)
     ck.bounded = {"evaluations": evals, "distinct_nontrivial": cases, "exhaustive": False,
-                  "rule": "generated SWC files: 1-, 2- and 3-point somata x 8 (quick) neurite-tree shapes (types 2,3,4; chains and binary bifurcations to depth 3) x seeds for coordinates/radii x {regular, zero-length first segment} x min_radius in {None, 0.6}, each read with ncomp in {1,2,3}; "
+                  "rule": "generated SWC files: 1-, 2- and 3-point somata x 8 (quick) neurite-tree shapes (types 2,3,4 and the custom types 5,6,7; chains and binary bifurcations to depth 3) x seeds for coordinates/radii x {regular, zero-length first segment} x min_radius in {None, 0.6}, each read with ncomp in {1,2,3}; "
                           "the repository's SWC files for ncomp-independence and max_branch_len; _split_branch_equally exhaustively for lengths 4..40 x 2..10 pieces; 40 seeded radius profiles. A case = one distinct generated file x setting"}
     for f in ("jaxley.io.swc.read_swc", "jaxley.io.swc.swc_to_jaxley", "jaxley.utils.cell_utils._split_into_branches", "jaxley.utils.cell_utils._build_parents", "jaxley.utils.cell_utils._compute_pathlengths",
               "jaxley.utils.cell_utils._radius_generating_fns", "jaxley.utils.cell_utils._radius", "jaxley.utils.cell_utils.build_radiuses_from_xyzr", "jaxley.utils.cell_utils._split_branch_equally", "jaxley.utils.cell_utils._split_long_branches"):
